@@ -49,13 +49,19 @@ static int st_states, st_trans, st_exec, st_merges, st_audits, st_selfloops, st_
 
 /* ------------------------------------------------------------------ rand() seam */
 #define RANDMAX_SCRIPT 64
-static int g_rand_script[RANDMAX_SCRIPT], g_rand_nscript, g_rand_calls, g_rand_total;
+static int g_rand_script[RANDMAX_SCRIPT], g_rand_nscript, g_rand_calls, g_rand_total, g_rand_mod, g_rand_flip;
 int rand (void)
 {
 	int i = g_rand_calls++;
 	g_rand_total++;
-	if (i < g_rand_nscript && g_rand_script[i] >= 0) return g_rand_script[i];
-	return i;	/* default answer: rand()%r == i leaves the permutation unchanged */
+	{
+		/* the scripted answer fixes the residue modulo the number of repair symbols (all the library may depend on);
+		 * every second call (which ones depends on the configuration) returns the LARGEST value <= RAND_MAX of that
+		 * residue class, so that code scaling rand() instead of reducing it sees the top of the range too */
+		int v = (i < g_rand_nscript && g_rand_script[i] >= 0) ? g_rand_script[i] : i;	/* default: rand()%r == i leaves the permutation unchanged */
+		if (g_rand_mod > 0 && ((i + g_rand_flip) & 1)) return RAND_MAX - (int) (((long) RAND_MAX - v) % g_rand_mod);
+		return v;
+	}
 }
 
 /* ------------------------------------------------------------------ payload and reference codeword */
@@ -530,7 +536,7 @@ static void op_sas (world_t *w, const unsigned char *member)
 static void op_fin (world_t *w)
 {
 	int st;
-	g_rand_calls = 0;
+	g_rand_calls = 0; g_rand_mod = G.r; g_rand_flip = (G.k + G.r + G.seed + G.N1) & 1;
 	st = (int) VF_LIB (of_finish_decoding (w->ses));
 	w->finished = 1;
 	vf_stat_add (st_finish, 1);
